@@ -371,7 +371,7 @@ type lifeCut struct {
 
 // lifeBehaviour is what the peer does on one TCP connection.
 type lifeBehaviour struct {
-	Kind string  `json:"kind"` // serve | cut | stallSelect | rejectSelect | stallMidFrame | stallFrameSel | stallLinktest | stallRead | noSelect
+	Kind string  `json:"kind"` // serve | cut | stallSelect | rejectSelect | selectStatus1Hold | stallMidFrame | stallFrameSel | stallLinktest | stallRead | noSelect
 	Cut  lifeCut `json:"cut"`
 }
 
@@ -545,6 +545,15 @@ func (p *lifePeer) run1() (why string) {
 				_, _ = p.conn.Write(lifeStallPrefix(p.beh.Cut.Off, 3))
 				p.stall()
 				return "exit#9"
+			case "selectStatus1Hold":
+				// "communication already active" although this side is not selected (a peer still holding a stale
+				// session), and the TCP connection is kept open: the procedure ends without a commit, so only the T7
+				// dwell can rescue the link (after seeded change C11c-1)
+				p.markFailed()
+				rsp := lifeFrame{Session: f.Session, B3: 1, SType: lifeSTSelectRsp, Sys: f.Sys}.bytes()
+				_, _ = p.conn.Write(rsp)
+				_, _ = io.Copy(io.Discard, p.conn)
+				return "exit#10b"
 			case "rejectSelect":
 				p.markFailed()
 				rsp := lifeFrame{Session: f.Session, B3: 2, SType: lifeSTSelectRsp, Sys: f.Sys}.bytes()
